@@ -189,6 +189,13 @@ fn mean_ci<F: Fl>(case: &Value) -> Value {
                     "lfold1" | "rfold1" | "rfold1_assign" | "lfold7" | "rfold7" | "tree" => {
                         let s = merged!($T); reg = Some(s); s.ci_mean(conf)
                     }
+                    // many bulk calls with small batches on the same, already populated state
+                    "extend4" => {
+                        let mut s = $T::<F>::new();
+                        for c in a.chunks(4) { if let Err(e) = s.extend(&c.to_vec()) { reg = Some(s); return Err(e); } }
+                        reg = Some(s);
+                        s.ci_mean(conf)
+                    }
                     s => panic!("style {}", s),
                 }
             });
@@ -209,7 +216,9 @@ fn mean_ci<F: Fl>(case: &Value) -> Value {
         "arith" => {
             let o = single!(Arithmetic, true);
             let mut s = Arithmetic::<F>::new();
-            if matches!(style, "lfold1" | "rfold1" | "rfold1_assign" | "lfold7" | "rfold7" | "tree") {
+            if style == "extend4" {
+                for c in a.chunks(4) { let _ = s.extend(&c.to_vec()); }
+            } else if matches!(style, "lfold1" | "rfold1" | "rfold1_assign" | "lfold7" | "rfold7" | "tree") {
                 // variance / std of the merged register itself (the merge is deterministic)
                 if let Ok(Ok(m)) = catch_unwind(AssertUnwindSafe(|| -> Result<Arithmetic<F>, CIError> { Ok(merged!(Arithmetic)) })) { s = m; }
             } else {
